@@ -18,7 +18,12 @@ CONST_NAMES = ['N', 'M', 'LEN', 'K', 'T2']
 CONST_BINDER_NAMES = ['this', 'other', 'state', 'f', 'rhs', 'source', 'lhs', 'o', 'to_index', '_self_0', 'l_0', '_0', 'r_0',
                       '_other_0', '_this_0', 'by', 'v_0', 'self_0', 'idx', 'index', 'value', 'x', 'a', 'b']
 
-NEUTRAL = dict(ty='Zq', lt='q', tp='Pq', cp='Kq', fields=['fa', 'fb', 'fc', 'fd'], variants=['Va', 'Vb', 'Vc'])
+NEUTRAL = dict(ty='Zq', lt='q', tp='Pq', cp='Kq', fields=['fa', 'fb', 'fc', 'fd'], variants=['Va', 'Vb', 'Vc'], fn='mkq')
+
+
+def user_fn(names):
+    """a user function with a user-chosen name, called by a `#[default(NAME())]` value"""
+    return "pub fn %s() -> &'static u8 { &7 }\n" % names['fn']
 
 SHADOW = '''
 pub mod shadow {
@@ -118,7 +123,8 @@ def build(names, shape, traits, mode, with_attrs, const_name=None):
                         attrs.append(sx.a_cmp(a, sx.m_list(sx.cargs(by=BY_EXPR[a]) if with_attrs == 3
                                                            else sx.cargs(key='( $ , %d )' % len(a)))))
             if 'Default' in traits and i % len(ftypes) == 0 and not ops and not deref:
-                attrs.append(sx.a_default(sx.m_list(sx.dargs('& 7'))))
+                # a literal expression / a call of a user function whose name is part of the renaming
+                attrs.append(sx.a_default(sx.m_list(sx.dargs('%s ( )' % names['fn'] if with_attrs in (0, 2, 4) else '& 7'))))
             if 'Default' in traits and i % len(ftypes) == 3 and with_attrs in (1, 3) and not ops and not deref:
                 # a path expression: converted with Into (must resolve under no_std and with the prelude shadowed)
                 attrs.append(sx.a_default(sx.m_list(sx.dargs('u8 :: MAX'))))
@@ -181,7 +187,8 @@ class C13(Prop):
                         tn = rng.sample(TYPE_NAMES, 6)
                         # the first renaming of every group uses the lifetime name the generator once used itself
                         rens.append(dict(ty=tn[0], tp=tn[1], lt='a' if j == 0 else rng.choice(LIFETIMES), cp=rng.choice(CONST_NAMES),
-                                         fields=rng.sample(FIELD_NAMES, 4), variants=tn[2:5]))
+                                         fields=rng.sample(FIELD_NAMES, 4), variants=tn[2:5],
+                                         fn=rng.choice([f for f in FIELD_NAMES if f != tn[0]])))
                     for ri, names in enumerate(rens):
                         out.append((gid, ri, names, shape, traits, mode, with_attrs, None))
                     # renamings with a const parameter named like a value binder of the expansion: EVERY such name for the
@@ -244,13 +251,14 @@ class C13(Prop):
         plain, shadow, nostd, viam = [], [], [], []
         for r in results:
             head = ('#[::derive_ex::derive_ex(%s)]\n' % r.attr) if r.mode == 'A' else '#[derive(::derive_ex::Ex)]\n'
-            plain.append(l2.Module(r.cid, head + r.item + '\n' + self.run_body(r.cid, r.meta), r))
+            uf = user_fn(r.meta['names'])
+            plain.append(l2.Module(r.cid, uf + head + r.item + '\n' + self.run_body(r.cid, r.meta), r))
             if r.meta['ri'] == 1:
                 # hygiene proper: the item declared through a macro_rules! macro that writes the attribute
-                viam.append(l2.Module(r.cid, l2.via_macro(head, r.item) + 'pub fn run() {}', r))
+                viam.append(l2.Module(r.cid, uf + l2.via_macro(head, r.item) + 'pub fn run() {}', r))
             if r.meta['ri'] != 0:
-                shadow.append(l2.Module(r.cid, '#[allow(unused_imports)] use super::shadow::*;\n' + head + r.item + '\npub fn run() {}', r))
-                nostd.append(l2.Module(r.cid, head + r.item + '\npub fn run() {}', r))
+                shadow.append(l2.Module(r.cid, '#[allow(unused_imports)] use super::shadow::*;\n' + uf + head + r.item + '\npub fn run() {}', r))
+                nostd.append(l2.Module(r.cid, uf + head + r.item + '\npub fn run() {}', r))
         nb = 8
         pb = [('c13p_%d' % k, plain[k::nb]) for k in range(nb)]
         sb = [('c13s_%d' % k, shadow[k::nb]) for k in range(nb)]
